@@ -10,11 +10,13 @@ pub mod c25;
 pub mod c27;
 pub mod c29;
 pub mod c29_core;
+pub mod doc;
 pub mod obs;
 
 pub fn dispatch(ctx: &Ctx) -> i32 {
     let mut rec = Recorder::new();
     let r = match ctx.id.as_str() {
+        "DOC" => doc::run(ctx, &mut rec),
         "OBS" => obs::run(ctx, &mut rec),
         "C07" => c07::run(ctx, &mut rec),
         "C08" => c08::run(ctx, &mut rec),
